@@ -72,14 +72,23 @@ Theorem ustack_granted :
 Proof. exact user_malloc_granted. Qed.
 Print Assumptions ustack_granted.
 
-(* the retry loop halves at most log2(nzumax)+1 times: with that much fuel MemInit never runs out of it
-   (annz >= 2; see meminit_hang_refuted for annz <= 1) *)
-Theorem meminit_terminates_partial :
+(* the retry loop halves at most log2(nzumax)+1 times: with that much fuel MemInit never runs out of it, for EVERY annz and
+   every allocator behaviour (was meminit_terminates_partial, with the hypothesis 2 <= a_annz a and one more unit of fuel: since
+   fix 'the retry loop gives up when nzumax < 1' the loop ends for annz <= 1 too; the arguments of the former witness
+   meminit_hang_refuted are in meminit_old_hang_witness_fails below) *)
+Theorem meminit_terminates :
   forall (fail : nat -> bool) (c : cfg) (fuel : nat) (a : mi_args) (m : mem),
-    2 <= a_annz a -> (Z.to_nat (Z.log2 (nzumax0 c a)) + 2 <= fuel)%nat ->
+    (Z.to_nat (Z.log2 (nzumax0 c a)) + 1 <= fuel)%nat ->
     no_hang (mem_init fail c fuel a m).
 Proof. exact meminit_terminates_lemma. Qed.
-Print Assumptions meminit_terminates_partial.
+Print Assumptions meminit_terminates.
+
+(* ... and more fuel never changes a result *)
+Theorem meminit_fuel_irrelevant :
+  forall (fail : nat -> bool) (c : cfg) (fuel k : nat) (a : mi_args) (m : mem) (r : mi_result) (m' : mem),
+    mem_init fail c fuel a m = Ok r m' -> mem_init fail c (fuel + k) a m = Ok r m'.
+Proof. exact mem_init_fuel_mono. Qed.
+Print Assumptions meminit_fuel_irrelevant.
 
 (* a failure return is a value > n *)
 Theorem meminit_code :
@@ -207,23 +216,72 @@ Theorem blocks_oracle_sound_complete :
 Proof. intros; split; [apply blocks_okb_sound|apply blocks_okb_complete]. Qed.
 Print Assumptions blocks_oracle_sound_complete.
 
-(* ---- where the faithful model of the unchanged code violates the property text ---- *)
+(* "a too small lwork returns info > n and corrupts nothing": user space, EVERY lwork > 0 (not only a sufficient one as in
+   meminit_sufficient_in_buffer), every allocator behaviour, every fuel, every alignment of the buffer: whenever MemInit
+   returns 0 the 13 arrays are inside [0, lwork), pairwise disjoint (also for the executable oracle), lusup and ucol on
+   8-byte boundaries, nzlumax is the guess, nzumax and nzlmax are between 0 and their guesses, the bytes they take are
+   strictly below lwork, and the stack is tail-free with used = top1 < lwork.  (The other outcomes: MIfail code with
+   code > n -- meminit_code; Stop Crash when the ?expanders header is NULL -- expanders_null_crash_refuted; no Hang --
+   meminit_terminates.)  Since fixes 'MemInit tests the nine integer arrays' and 'the retry loop gives back exactly what
+   the last attempt took'; replaces insufficient_buffer_wild_blocks_refuted. *)
+Theorem meminit_user_any_buffer_safe :
+  forall (fail : nat -> bool) (c : cfg), 0 <= dword c ->
+  forall (fuel : nat) (a : mi_args) (m : mem) (g : glu) (m' : mem),
+    a_refact a = false -> 0 < a_lwork a -> 0 <= a_n a -> 0 <= a_annz a -> 0 <= a_nzlumax a ->
+    mem_init fail c fuel a m = Ok (MIok g) m' ->
+    exists bl,
+      glu_blocks c (a_n a) g = Some bl /\
+      Forall (block_in 0 (a_lwork a)) bl /\ ForallOrdPairs disjoint bl /\ blocks_okb (a_lwork a) bl = true /\
+      g_nzlumax g = nzlumax0 c a /\ 0 <= g_nzumax g <= nzumax0 c a /\ 0 <= g_nzlmax g <= nzlmax0 c a /\
+      (exists o, g_lusup g = POff o /\ misalign (a_ba a) o = 0) /\
+      (exists o, g_ucol g = POff o /\ misalign (a_ba a) o = 0) /\
+      glu_need c (a_n a) g < a_lwork a /\
+      s_size (m_stack m') = a_lwork a /\ s_top2 (m_stack m') = a_lwork a /\
+      s_used (m_stack m') = s_top1 (m_stack m') /\ s_used (m_stack m') < a_lwork a.
+Proof. intros fail c H. exact (meminit_user_in_buffer_lemma fail c H). Qed.
+Print Assumptions meminit_user_any_buffer_safe.
 
-(* insufficient user buffer: MemInit returns 0 with arrays BELOW the buffer (retry loop frees blocks that
-   were never handed out) *)
-Theorem insufficient_buffer_wild_blocks_refuted :
-  exists a g m', 0 < a_lwork a /\
+(* the nine integer arrays are tested: a buffer that cannot hold them (36 n + 20 bytes, strictly below lwork) makes MemInit
+   return memory_use(initial guesses) + n at once; no L/U array is requested, ?expanders and no_expand are as MemInit found /
+   set them on entry.  (Before the fix the nine results were never looked at and MemInit went on with NULL arrays.) *)
+Theorem meminit_int_arrays_refused :
+  forall (fail : nat -> bool) (c : cfg) (fuel : nat) (a : mi_args) (m : mem),
+    a_refact a = false -> 0 < a_lwork a -> 0 <= a_n a -> a_lwork a <= 36 * a_n a + 20 ->
+    exists m',
+      mem_init fail c fuel a m
+      = Ok (MIfail (f32 (memory_use c (a_n a) (nzlmax0 c a) (nzumax0 c a) (nzlumax0 c a) + f32 (a_n a)))) m' /\
+      m_noexp m' = 0 /\ m_exp m' = m_exp (ensure_expanders fail (set_ba (set_dims m (a_n a) 0) (a_ba a))).
+Proof. exact meminit_int_arrays_refused_lemma. Qed.
+Print Assumptions meminit_int_arrays_refused.
+
+(* ---- vm_compute witnesses: arguments of former counterexamples (now repaired) and what is still refuted ---- *)
+
+(* [repaired; was insufficient_buffer_wild_blocks_refuted: lwork = 3000, MemInit returned 0 with ucol at offset -19616]
+   the very arguments of the old witness: MemInit returns 0 after six attempts with nzumax = 46, nzlmax = 28, all 13 arrays
+   inside [0, 3000) and disjoint, used = top1 = 2648; with lwork = 300 the integer arrays do not fit and the failure code
+   23610 > n + 1 is returned at once.  Instances of meminit_user_any_buffer_safe / meminit_int_arrays_refused. *)
+Theorem insufficient_buffer_in_range :
+  (exists a g m', a = mkArgs 10 30 1 4 false false 200 0 0 3000 0 None /\
     mem_init (fun _ => false) default_cfg 64 a init_mem = Ok (MIok g) m' /\
-    exists bl, glu_blocks default_cfg (a_n a) g = Some bl /\ blocks_okb (a_lwork a) bl = false /\
-    g_ucol g = POff (-19616).
-Proof. exact insufficient_buffer_wild_blocks_lemma. Qed.
-Print Assumptions insufficient_buffer_wild_blocks_refuted.
+    (exists bl, glu_blocks default_cfg (a_n a) g = Some bl /\ blocks_okb (a_lwork a) bl = true) /\
+    g_lusup g = POff 384 /\ g_ucol g = POff 1984 /\ g_lsub g = POff 2352 /\ g_usub g = POff 2464 /\
+    g_nzumax g = 46 /\ g_nzlmax g = 28 /\ g_nzlumax g = 200 /\
+    m_stack m' = mkStack 3000 2648 2648 3000) /\
+  (exists a m', a = mkArgs 10 30 1 4 false false 200 0 0 300 0 None /\
+    mem_init (fun _ => false) default_cfg 64 a init_mem = Ok (MIfail 23610) m' /\
+    a_n a + 1 < 23610 /\ m_noexp m' = 0 /\ m_stack m' = mkStack 300 296 296 300).
+Proof. exact insufficient_buffer_lemma. Qed.
+Print Assumptions insufficient_buffer_in_range.
 
-(* annz <= 1 and a failing system allocator: the retry loop never ends, whatever the fuel *)
-Theorem meminit_hang_refuted :
-  forall fuel, exists m', mem_init hang_fail hang_cfg fuel hang_args init_mem = Stop Hang m'.
-Proof. exact meminit_hang_lemma. Qed.
-Print Assumptions meminit_hang_refuted.
+(* [repaired; was meminit_hang_refuted: annz <= 1 and a failing system allocator, the retry loop never ended whatever the fuel]
+   the very arguments of the old witness (system space, n = annz = 1, the allocator fails from the 11th request on): with any
+   fuel >= 6 MemInit returns the failure code 49 > n after 29 system requests (nzumax = 50, 25, 12, 6, 3, 1, then 0: give up) *)
+Theorem meminit_old_hang_witness_fails :
+  forall fuel, (6 <= fuel)%nat ->
+    exists m', mem_init hang_fail hang_cfg fuel hang_args init_mem = Ok (MIfail 49) m' /\
+               m_sysn m' = 29%nat /\ m_noexp m' = 0.
+Proof. exact meminit_old_hang_witness_lemma. Qed.
+Print Assumptions meminit_old_hang_witness_fails.
 
 (* [repaired: fix 'tail blocks are aligned by the allocator'; was workinit_alignment_overlap_refuted: the alignment
    fix-up of WorkInit moved dwork below top1 and the TAIL block overlapped the last HEAD block]
